@@ -55,8 +55,11 @@ class StateEvaluator(QuantifierSimplifier):
             _variable_assignments
         )
         self._state = state
-        r = self.walk(expression)
-        self._variable_assignments = None
+        try:
+            r = self.walk(expression)
+        finally:
+            # also after a failed evaluation (e.g. a fluent missing in the state)
+            self._variable_assignments = None
         assert r.is_constant()
         return r
 
